@@ -279,3 +279,12 @@ package turn
 //@   assume-callee-pre
 //@   at-call (*Server).readListener assert [C09:serves-the-listener] recv == server && arg0 == cfg.Listener && arg1 == am
 //@   at-call (*allocation.Manager).Close assert [C15:manager-closed-when-the-listener-ends] recv == am
+
+// ---- C15 (closing the server): Close closes every configured socket and every configured listener, whatever errors
+// the individual Close calls report (the read loops then end and close their allocation managers, see NewServer$1/$2).
+//@ func (*Server).Close
+//@   assume-callee-pre
+//@   ensures [C15:server-close-closes-every-socket] socketsClosed == old(socketsClosed) + len(s.packetConnConfigs) + len(s.listenerConfigs)
+//@   loop 0 invariant [C15:server-close-closes-every-socket] -1 <= rangeindex && rangeindex < len(s.packetConnConfigs) && socketsClosed == old(socketsClosed) + rangeindex + 1 && len(s.packetConnConfigs) == old(len(s.packetConnConfigs)) && len(s.listenerConfigs) == old(len(s.listenerConfigs))
+//@   loop 1 invariant [C15:server-close-closes-every-socket] -1 <= rangeindex && rangeindex < len(s.listenerConfigs) && socketsClosed == old(socketsClosed) + len(s.packetConnConfigs) + rangeindex + 1 && len(s.packetConnConfigs) == old(len(s.packetConnConfigs)) && len(s.listenerConfigs) == old(len(s.listenerConfigs))
+//@   loop 2 invariant socketsClosed == old(socketsClosed) + len(s.packetConnConfigs) + len(s.listenerConfigs) && len(s.packetConnConfigs) == old(len(s.packetConnConfigs)) && len(s.listenerConfigs) == old(len(s.listenerConfigs))
